@@ -419,7 +419,7 @@ func trunc(s string, n int) string {
 }
 
 func rangeForms(L int) []string {
-	nums := []string{"", "0", "1", strconv.Itoa(L - 1), strconv.Itoa(L), strconv.Itoa(L + 1), "2", "99999999999999999999", "9223372036854775807", "9223372036854775808", "x", "-1", " 1", "+1", "01"}
+	nums := []string{"", "0", "1", strconv.Itoa(L - 1), strconv.Itoa(L), strconv.Itoa(L + 1), "2", "99999999999999999999", "9223372036854775807", "9223372036854775808", "18446744073709551616", "18446744073709551618", "36893488147419103232", "x", "-1", " 1", "+1", "01"}
 	rs := []string{"", "bytes", "bytes=", "items=0-1", "bytes=0-1,2-3", "bytes=--1", "bytes=1", "bytes=-", "Bytes=0-1", "bytes = 0-1", "bytes=0-1 ", "bytes=0 - 1"}
 	for _, a := range nums {
 		for _, b := range nums {
